@@ -106,6 +106,7 @@ class PathEnumerator:
         self.loop_view = False                      # spell comprehensions over private helpers as loops (see normalize.Normalizer.body)
         self.single_use_any = False                 # opt-in: a function called at one place only is read as part of its caller, however its result is used
         self.unroll_literal_loops = True            # ``for x in (a, b, c)`` over a literal is read as the straight-line code it abbreviates
+        self.own_class_helpers = False              # opt-in: ``x = self.helper(..)`` on a non-interface method of the analysed class is read in place
 
     def function_paths(self, fn: FunctionInfo, self_cls=None, args: Optional[Dict[str, Term]] = None) -> List[Path]:
         env: Dict[str, Term] = {}
@@ -448,7 +449,7 @@ class PathEnumerator:
                     # the other builder's steps are part of this one's
                     d, info = tgt.node, tgt
         elif isinstance(v.func, ast.Attribute) and self.inline_private and ((v.func.attr.startswith("_") and not v.func.attr.startswith("__"))
-                                                                              or self._single_use_name(v.func.attr, fr)):
+                                                                              or self._single_use_name(v.func.attr, fr) or self._own_helper_name(v, fr)):
             try:
                 base = self.ev.expr(v.func.value, self._frame(fr, p))
             except Unsupported:
@@ -456,7 +457,7 @@ class PathEnumerator:
             c = self.ev.model.maybe_cls(base[1]) if base[0] == "cls" else self.ev.type_of(base)
             if c is not None:
                 fs = c.resolve_all(v.func.attr)
-                if len(fs) == 1 and (is_private_helper(fs[0]) or self._single_use(fs[0], fr)) and "abstractmethod" not in fs[0].decorators:
+                if len(fs) == 1 and (is_private_helper(fs[0]) or self._single_use(fs[0], fr) or self._own_helper(fs[0], fr)) and "abstractmethod" not in fs[0].decorators:
                     d, info = fs[0].node, fs[0]
                     if info.kind == "method" and base[0] != "cls":
                         self_term, self_cls = base, c
@@ -494,6 +495,26 @@ class PathEnumerator:
                         cache["&" + nm] = cache.get("&" + nm, 0) + 1
             self.ev.model._call_site_counts = cache
         return cache.get(name, 0)
+
+    def _own_helper_name(self, call: ast.Call, fr: Frame) -> bool:
+        if not self.own_class_helpers or fr.fn is None or fr.fn.cls is None or self._inline_depth > 0:
+            return False
+        f = call.func
+        if not (isinstance(f.value, ast.Name) and f.value.id == fr.fn.self_name):
+            return False
+        defs = [g for g in self.ev.model.all_functions() if g.name == f.attr]
+        return len(defs) == 1 and self._own_helper(defs[0], fr)
+
+    def _own_helper(self, g: FunctionInfo, fr: Frame) -> bool:
+        """a method of the analysed class that is not part of any interface (defined once, never overridden, not inherited) is a piece of that class's
+        code: with ``own_class_helpers`` a rule reads ``x = self.g(..)`` as the statements of g"""
+        if not self.own_class_helpers or fr.fn is None or g.cls is None or g.cls is not fr.fn.cls or g is fr.fn:
+            return False
+        if g.name.startswith("__") or g.kind != "method" or "abstractmethod" in g.decorators or g.decorators:
+            return False
+        if any(g.name in k.methods for k in self.ev.model.subclasses(g.cls)) or any(g.name in k.methods for k in g.cls.mro() if k is not g.cls):
+            return False
+        return g.qualname not in self.no_inline and g.qualname not in self.ev.opaque
 
     def _single_use_name(self, name: str, fr: Frame) -> bool:
         if name.startswith("__") or name in ("copy", "add", "construct", "extend", "append", "get", "update"):
